@@ -33,6 +33,14 @@ RULE = (
     "by (grid label, query)"
 )
 ASSUMPTIONS = [
+    "fresh results: every query is asked twice on the same object and the first answer "
+    "is overwritten in place before the second call; the second answer must be right and "
+    "must not share memory with the first.  Answers that are views of the grid's own "
+    "storage (divergence(1) is cell_faces.T without a copy on the unchanged tree) are not "
+    "overwritten, only repeated",
+    "sequences on one object: queries; in-place topology change (propagate_fractures on "
+    "the smallest growable cart_grid md-grid; hand-made removal of the last cell followed "
+    "by update_boundary_face_tag); the same queries again against the incidence as it is then",
     "purity: no query may change the grid it is asked about (nodes, face_nodes raw, "
     "cell_faces in canonical form, tags, geometry compared bitwise before/after); all "
     "queries of one grid run on ONE grid object, so a query that damaged the incidence "
@@ -47,8 +55,8 @@ ASSUMPTIONS = [
     "classified (ValueError expected), not judged",
 ]
 BOUNDS = {
-    "quick": "all 32 letters + 7 fractured md-grids (20 subdomains) + every non-empty cell subset of letters with <= 6 cells; boundary-face queries: all ordered pairs when <= 24 boundary faces, else pairs among the first 24",
-    "thorough": "all 36 letters + 7 fractured md-grids + every non-empty cell subset of letters with <= 9 cells (2-d) / <= 8 cells (3-d)",
+    "quick": "all 37 letters + 7 fractured md-grids (20 subdomains) + 6 in-place topology sequences; every query asked twice with the first result overwritten + every non-empty cell subset of letters with <= 6 cells; boundary-face queries: all ordered pairs when <= 24 boundary faces, else pairs among the first 24",
+    "thorough": "all 41 letters + 7 fractured md-grids + 6 sequences + every non-empty cell subset of letters with <= 9 cells (2-d) / <= 8 cells (3-d)",
 }
 MIN_CLASSES = 6
 CHUNK = 4
@@ -66,6 +74,9 @@ def cases(tier):
         out.append({"src": "base", "name": name, "spec": spec})
     for f in G.FRAC:
         out.append({"src": "frac", "name": f})
+    out.append({"src": "seq", "seq": "propagate"})
+    for name in ("C2", "C22", "T22", "K111", "C211"):
+        out.append({"src": "seq", "seq": "drop-cell", "name": name, "spec": dict(G.base_specs("thorough"))[name]})
     for name, spec in G.base_specs(tier):
         nc = G.build(spec).num_cells
         if 2 <= nc <= _sub_limit(tier, G.spec_dim(spec)):
@@ -153,7 +164,7 @@ def check_grid(g, label, out: Outcome, born="plain"):
     except Exception as e:
         ev("update_tag", "", "raised", error=repr(e))
     try:
-        if born == "frac":
+        if born in ("frac", "seq"):
             got = np.zeros(nf, dtype=bool)
             got[g.get_all_boundary_faces()] = True
         else:
@@ -231,6 +242,181 @@ def check_grid(g, label, out: Outcome, born="plain"):
         out.ev("divergence0/ValueError")
     except Exception:
         out.ev("divergence0/other-error")
+    fresh_results(g, label, out, nontriv)
+
+
+def _result_arrays(r):
+    """(arrays that may be scrambled, all arrays) of a query result."""
+    import scipy.sparse as sps
+
+    if sps.issparse(r):
+        if r.format in ("csr", "csc", "bsr"):
+            return [r.data], [r.data, r.indices, r.indptr]
+        if r.format == "coo":
+            return [r.data], [r.data, r.row, r.col]
+        return [], []
+    if isinstance(r, tuple):
+        a = [np.asarray(x) for x in r if isinstance(x, np.ndarray)]
+        return a, a
+    if isinstance(r, np.ndarray):
+        return [r], [r]
+    return [], []
+
+
+def _grid_arrays(g):
+    arrs = [g.nodes]
+    for m in (g.cell_faces, g.face_nodes):
+        arrs += [m.data, m.indices, m.indptr]
+    arrs += [np.asarray(v) for v in g.tags.values() if isinstance(v, np.ndarray)]
+    arrs += [getattr(g, f) for f in G.GEOM_FIELDS if hasattr(g, f)]
+    return arrs
+
+
+def _scramble(arrs):
+    for a in arrs:
+        if not a.flags.writeable or a.size == 0:
+            continue
+        if a.dtype == bool:
+            np.logical_not(a, out=a)
+        else:
+            a *= -1
+            a -= 7
+
+
+def fresh_results(g, label, out: Outcome, nontriv=True):
+    """Every query is asked twice on the same grid object.  What the caller does with the
+    first answer (here: overwrite it in place) must not influence the second answer: a
+    query result is a function of the grid, not of earlier calls."""
+    D = G.dense_incidence(g)
+    A = np.abs(D)
+    nf, nc = D.shape
+    cnt = A.sum(axis=1)
+    one = np.where(cnt == 1)[0]
+    FN = (g.face_nodes.toarray() != 0).astype(int)
+    exp_cn = (FN @ A) > 0
+    exp_dense = -np.ones((2, nf), dtype=int)
+    for f in range(nf):
+        pz, mz = np.where(D[f] > 0)[0], np.where(D[f] < 0)[0]
+        if pz.size:
+            exp_dense[0, f] = pz[0]
+        if mz.size:
+            exp_dense[1, f] = mz[0]
+    exp_c2c = (A.T @ A) > 0
+    off = ~np.eye(nc, dtype=bool)
+
+    def v_dense(r):
+        return r.shape == exp_dense.shape and np.array_equal(r, exp_dense)
+
+    def v_c2c(r):
+        M = np.asarray(r.toarray()).astype(bool)
+        return M.shape == (nc, nc) and np.array_equal(M, M.T) and np.array_equal(M[off], exp_c2c[off])
+
+    def v_cn(r):
+        M = np.asarray(r.toarray()).astype(bool)
+        return M.shape == exp_cn.shape and np.array_equal(M, exp_cn)
+
+    def v_ncn(r):
+        return np.array_equal(np.asarray(r).ravel(), exp_cn.sum(axis=0))
+
+    def v_div(k):
+        E = np.kron(D.T, np.eye(k, dtype=int))
+        return lambda r: r.shape == E.shape and np.array_equal(np.asarray(r.toarray()), E)
+
+    queries = [
+        ("as_dense", g.cell_faces_as_dense, v_dense),
+        ("connection_map", g.cell_connection_map, v_c2c),
+        ("cell_nodes", g.cell_nodes, v_cn),
+        ("divergence1", lambda: g.divergence(1), v_div(1)),
+        ("divergence2", lambda: g.divergence(2), v_div(2)),
+        ("divergence3", lambda: g.divergence(3), v_div(3)),
+    ]
+    if nc:
+        queries.append(("num_cell_nodes", g.num_cell_nodes, v_ncn))
+    if one.size:
+        es = np.array([D[f, np.nonzero(D[f])[0][0]] for f in one])
+        ec = np.array([np.nonzero(D[f])[0][0] for f in one])
+        queries.append((
+            "signs_cells",
+            lambda: g.signs_and_cells_of_boundary_faces(one.copy()),
+            lambda r: np.array_equal(np.asarray(r[0]).ravel(), es) and np.array_equal(np.asarray(r[1]).ravel(), ec),
+        ))
+    before = G.grid_digest(g)
+    for name, call, verify in queries:
+        try:
+            r1 = call()
+            if not verify(r1):
+                out.violate(f"{name}: wrong result (repeat-call pass)", grid=label)
+                out.ev("VIOLATION")
+                continue
+            scr, allarr = _result_arrays(r1)
+            internals = _grid_arrays(g)
+            if any(np.shares_memory(a, b) for a in allarr for b in internals if a.size and b.size):
+                # the answer is a view of the grid's own storage: overwriting it would be
+                # the harness damaging the grid, so only idempotence is demanded
+                r2 = call()
+                if not verify(r2):
+                    out.violate(f"{name}: second call on the same grid gives a wrong result", grid=label)
+                    out.ev("VIOLATION")
+                else:
+                    out.ev(f"fresh/{name}/view-of-grid-storage")
+                continue
+            _scramble(scr)
+            r2 = call()
+            ok2 = verify(r2)
+            _, all2 = _result_arrays(r2)
+            shared = any(np.shares_memory(a, b) for a in allarr for b in all2 if a.size and b.size)
+            if not ok2:
+                out.violate(f"{name}: result of the second call is wrong after the caller overwrote the first result in place (stale / shared result)", grid=label, same_object=bool(r2 is r1), shares_memory=bool(shared))
+                out.ev("VIOLATION")
+            elif shared:
+                out.violate(f"{name}: results of two calls share memory", grid=label)
+                out.ev("VIOLATION")
+            else:
+                out.ev(f"fresh/{name}/independent", ("fr", label, name) if nontriv else None)
+        except Exception as e:
+            out.violate(f"{name}: raised in the repeat-call pass", grid=label, error=repr(e))
+            out.ev("VIOLATION")
+    ch = G.digest_diff(before, G.grid_digest(g))
+    if ch:
+        out.violate("repeat-call pass: argument grid mutated", grid=label, changed=ch)
+        out.ev("VIOLATION")
+
+
+def _run_sequence(case, out: Outcome):
+    """Queries, then an in-place change of the topology of the SAME grid object, then the
+    queries again (all against the dense incidence of the object as it is then)."""
+    import warnings
+
+    import porepy as pp
+
+    if case["seq"] == "propagate":
+        # smallest fractured Cartesian md-grid whose fracture can grow: propagate_fractures
+        # updates the matrix and fracture grids in place
+        with warnings.catch_warnings():
+            warnings.simplefilter("ignore")
+            mdg = pp.meshing.cart_grid([np.array([[1.0, 2.0], [1.0, 1.0]])], np.array([4, 2]))
+            mdg.compute_geometry()
+            sd2, sd1 = mdg.subdomains(dim=2)[0], mdg.subdomains(dim=1)[0]
+            for sd, lab in ((sd2, "prop/d2/before"), (sd1, "prop/d1/before")):
+                check_grid(sd, lab, out, born="frac")
+            fc = sd2.face_centers
+            face = np.where(np.logical_and(np.isclose(fc[0], 2.5), np.isclose(fc[1], 1.0)))[0]
+            nf0 = sd2.num_faces
+            pp.propagate_fracture.propagate_fractures(mdg, {sd1: face})
+        if sd2.num_faces != nf0 + 1:
+            raise RuntimeError("harness: propagation did not split one face")
+        for sd, lab in ((sd2, "prop/d2/after"), (sd1, "prop/d1/after")):
+            check_grid(sd, lab, out, born="seq")
+        out.samples.append({"sequence": "queries; propagate_fractures (in place); queries", "faces_before_after": [int(nf0), int(sd2.num_faces)]})
+        return
+    # hand-made in-place edit: the last cell is removed from the incidence of the object
+    g = G.build(case["spec"])
+    check_grid(g, case["name"] + "/before", out)
+    g.cell_faces = g.cell_faces[:, : g.num_cells - 1].tocsc()
+    g.num_cells -= 1
+    g.parent_cell_ind = np.arange(g.num_cells)
+    g.update_boundary_face_tag()
+    check_grid(g, case["name"] + "/after-removing-last-cell", out, born="seq")
 
 
 def _connected(adj):
@@ -260,6 +446,8 @@ def run_case(case) -> Outcome:
     elif case["src"] == "frac":
         for label, g in G.frac_grids(case["name"]):
             check_grid(g, label, out, born="frac")
+    elif case["src"] == "seq":
+        _run_sequence(case, out)
     else:
         g = G.build(case["spec"])
         for c in itertools.combinations(range(g.num_cells), case["k"]):
